@@ -11,7 +11,7 @@ PROP = {
     "gen": [{"name": "locktab", "cmd": ["python3", "tools/locktab/run.py"], "timeout": 600}],
     "harness": "c25",
     "modelrun": {"name": "c25", "extracted": ["c25_model"], "driver": "ocaml/c25/c25_run.ml"},
-    "tiers": {"quick": {"cases": 40, "harness_timeout": 900}, "thorough": {"cases": 2000, "harness_timeout": 3000}},
+    "tiers": {"quick": {"cases": 40, "harness_timeout": 900}, "thorough": {"cases": 1200, "harness_timeout": 3000}},
     "search_cases": 40,
     "search_rounds": 2,
     "rule": "one case = one child process: a fixed deadlock witness (corpus/C25) or a seeded concurrent stress of "
